@@ -11,8 +11,8 @@ import (
 	"net/url"
 	"os"
 	"path/filepath"
-	"strconv"
 	"sort"
+	"strconv"
 	"strings"
 	"sync"
 	"sync/atomic"
@@ -186,11 +186,11 @@ type c07Req struct {
 	Chunked bool
 	// Trailers: fields sent after the last chunk of a chunked body, announced in a Trailer header
 	Trailers []rawhttp.Header
-	ChunkSz int
-	Via     string // plain | tls | v6
-	Local   string
-	Upgrade string
-	Script  *rawhttp.Script
+	ChunkSz  int
+	Via      string // plain | tls | v6
+	Local    string
+	Upgrade  string
+	Script   *rawhttp.Script
 }
 
 var c07Segs = []string{"a", "b", "%2F", "%20", "%25", "%C3%A9", "a;b", "x:y", "@", "a+b", "~", "a,b", "k=v", "a&b", "$", "x.y", "UP", "%2f", "s", "t"}
